@@ -85,6 +85,30 @@ def _case(repo, it, S, layout, sn):
     if overlapping:
         if k == "ok" and _seq_str(v) != want:
             out.append(("extract_sequence", f"{desc}.extract_sequence() = {_seq_str(v)!r}; image is {want!r}", f_ext.qual))
+        # a sequence located on overlapping blocks (a base read twice, e.g. a -1 frameshift): every slice keeps one recorded
+        # position per character (plus strand; the minus-strand sub-interval order of overlapping blocks is not claimed)
+        if sn == "PLUS" and k == "ok":
+            try:
+                s_ov = mk_sequence(it, want, ALPHA, parent=mk_parent(it, location=loc))
+            except Raised:
+                return n, out
+            f_get = repo.fn("sequence.sequence:Sequence.__getitem__")
+            for a in range(0, L):
+                for b in range(a + 1, L + 1):
+                    n += 1
+                    kk, d = run(it, f_get, [slice(a, b)], {}, s_ov)
+                    if kk != "ok":
+                        out.append(("slice on overlapping blocks", f"{desc}: sequence[{a}:{b}] raises {d}", f_get.qual))
+                        return n, out
+                    p_ = d.fields.get("parent")
+                    dl = p_.fields.get("location") if isinstance(p_, Obj) else None
+                    npos = 0 if dl is None or is_empty_obj(dl) else sum(e - s_ for s_, e in blocks_of(dl))
+                    spelled = "" if not npos else image(blocks_of(dl), strand_of(dl).name)
+                    if d.fields["sequence"] != want[a:b] or npos != b - a or sorted(ut(spelled)) != sorted(ut(want[a:b])):
+                        out.append(("slice on overlapping blocks", f"{desc}: sequence[{a}:{b}] = {d.fields['sequence']!r} is recorded on "
+                                    f"{blocks_of(dl) if dl is not None and not is_empty_obj(dl) else None} ({npos} positions spelling {spelled!r}); "
+                                    f"one position per character of {want[a:b]!r} is required", f_get.qual))
+                        return n, out
         return n, out
     if k != "ok" or _seq_str(v) != want:
         out.append(("extract_sequence", f"{desc}.extract_sequence() -> {k}:{_seq_str(v) if k == 'ok' else v!r}; the base-by-base image is {want!r}", f_ext.qual))
